@@ -129,8 +129,24 @@ class Prop(object):
         body = rsig.make(raw, 0x00, 8, hashed, rsig.sp_issuer(rkeys.keyid(raw)), {'doc': DOC})
         return wire.packet(2, body), hashed
 
-    def _check(self, r, pk, hashed, tags, case, label, flips):
-        """import, hashdata, verify, optional bit flips."""
+    UNHASHED_SHAPES = [('unhashed length understated (2)', lambda n: 2), ('unhashed length understated by one', lambda n: n - 1)]
+
+    def _check(self, r, pk, hashed, tags, case, label, flips, lenient=False):
+        """import, hashdata, verify, optional bit flips.  Then the same packet with an unhashed area that is not well-formed (its length field
+        understated, so that its last subpacket overruns it - PGPy accepts such packets): what the unsigned area looks like has no bearing on the
+        octets fed to the hash for the signed one."""
+        res = self._check1(r, pk, hashed, tags, case, label, flips, lenient)
+        if not lenient and res == 'ok' and not case.get('flip'):
+            body = bytearray(wire.read_packet(pk)['body'])
+            off = 6 + len(hashed)
+            uhl = int.from_bytes(body[off:off + 2], 'big')
+            for sname, f in self.UNHASHED_SHAPES:
+                b = bytearray(body)
+                b[off:off + 2] = f(uhl).to_bytes(2, 'big')
+                self._check1(r, wire.packet(2, b), hashed, dict(tags, unhashed='understated'), dict(case, unhashed=sname), '%s, %s' % (label, sname), flips, True)
+        return res
+
+    def _check1(self, r, pk, hashed, tags, case, label, flips, lenient):
         import pgpy
         raw, pub = self._ctx()
         r.states += 1
@@ -167,7 +183,10 @@ class Prop(object):
         r.transitions += 1
         if not v:
             crit_unknown = tags.get('critical') and tags.get('implemented') is False
-            if crit_unknown:
+            if lenient:
+                # (a packet whose unhashed area is not well-formed need not verify; what was fed to the hash has been compared above)
+                r.outcomes['accepted:malformed-unhashed-area-fails'] += 1
+            elif crit_unknown:
                 r.outcomes['accepted:critical-unknown-fails'] += 1
             else:
                 r.outcomes['accepted:verify-fails'] += 1
